@@ -118,8 +118,12 @@ CUSTOM_TYPES = st.text(alphabet="ABCDEFGHIJKLMNOPQRSTUVWXYZabcdefghijklmnopqrstu
 STD_TYPES = [m.value for m in FMsg]
 
 
+# custom types that are spelled like a member NAME of the msgtype enum (not its value) are still custom types
+NAME_LIKE = sorted({n for m in FMsg for n in (m.name, m.name.lower(), m.name.capitalize()) if n not in FMsg})[:400]
+
+
 def msgtype_strategy():
-    return st.one_of(st.sampled_from(STD_TYPES), st.sampled_from(STD_TYPES), CUSTOM_TYPES, st.sampled_from(["4", "4", "D", "8", "A", "0"]))
+    return st.one_of(st.sampled_from(NAME_LIKE), st.sampled_from(STD_TYPES), st.sampled_from(STD_TYPES), CUSTOM_TYPES, st.sampled_from(["4", "4", "D", "8", "A", "0"]))
 
 
 compid = st.one_of(
@@ -145,6 +149,7 @@ def message_case(draw, allow_marker=True, max_entries=8):
         "carried": draw(seqnum),
         # FIXMessage documents msg_type as `str | FMsg`: standard types come in both spellings
         "type_spelling": draw(st.sampled_from(["enum", "str"])),
+        "possdup_tail": draw(st.booleans()),
     }
     if mode == "seqreset":
         case["newseqno"] = draw(seqnum)
@@ -181,7 +186,11 @@ def build_message(case):
         if case.get("gapfill"):
             extra.append(("f", "123", case["gapfill"]))
         extra.append(("f", "36", str(case["newseqno"])))
-    full_body = extra + list(case["body"])
+    if mode == "possdup" and case.get("possdup_tail"):
+        # the layout _process_resend produces: PossDupFlag / OrigSendingTime AFTER the original body (possibly after a group)
+        full_body = list(case["body"]) + extra + [("f", "122", "20230101-00:00:00.000")]
+    else:
+        full_body = extra + list(case["body"])
     fill_container(m, full_body)
     return m, full_body
 
@@ -275,6 +284,16 @@ def sweep_cases():
                 body = [e for e in body if e[0] == "g" or e[1] not in TRANS[g]]
                 cases.append({"msgtype": "D", "mode": "normal", "body": body, "sender": "CLI", "target": "SRV",
                               "next_out": 7, "carried": 3, "sweep": f"{g}/{n}/{shape}"})
+    for g in sorted(GROUP_KEYS - SKIPPED_GROUPS, key=int):
+        for n in (1, 2):
+            body = [("f", "11", "before"), ("g", g, [item(g, "all", 0, i) for i in range(n)])]
+            body = [e for e in body if e[0] == "g" or e[1] not in TRANS[g]]
+            if "43" in TRANS[g] or "122" in TRANS[g]:
+                continue
+            cases.append({"msgtype": "D", "mode": "possdup", "possdup_tail": True, "body": body, "sender": "CLI", "target": "SRV",
+                          "next_out": 7, "carried": 3, "sweep": f"possdup-tail/{g}/{n}"})
+    for mt in NAME_LIKE[:60]:
+        cases.append({"msgtype": mt, "mode": "normal", "body": [("f", "58", "x")], "sender": "CLI", "target": "SRV", "next_out": 7, "carried": 3, "sweep": f"name-like/{mt}"})
     # every encoding mode x both spellings of the message type (msg_type is documented as `str | FMsg`)
     for sp in ("enum", "str"):
         for mt, mode in [("D", "normal"), ("D", "possdup"), ("D", "raw"), ("8", "possdup"), ("0", "normal"), ("4", "seqreset"), ("A", "raw")]:
